@@ -298,7 +298,13 @@ def run(tier, seed, replay=None):
                     break
                 par = [o.start(e_) + (o.end(e_) - o.start(e_)) * 0.37 for e_ in range(o.pardim)]
                 bad = None
+                # where the original jumps (a knot of full multiplicity at the split value) the piece ends with the left
+                # limit and the original evaluates the right limit: not a difference of the maps (DESIGN.md 16.2)
+                kn_o = np.asarray(o.knots(dd, with_multiplicities=True))
+                jump_hi = int(np.sum(np.abs(kn_o - hi) < 1e-9)) >= o.order(dd) and hi < o.end(dd) - 1e-9
                 for f_ in (0.0, 0.21, 0.5, 0.77, 1.0):
+                    if f_ == 1.0 and jump_hi:
+                        continue
                     par[dd] = min(max(lo + (hi - lo) * f_, pc.start(dd)), pc.end(dd))
                     vp = np.asarray(pc.evaluate(*par)).reshape(-1)
                     vo = np.asarray(o.evaluate(*par)).reshape(-1)
